@@ -266,6 +266,10 @@ func (c *conn) handleMutate(in *inEnvelope) error {
 	c.mu.Lock()
 	defer c.mu.Unlock()
 
+	if _, ok := c.subscriptions[id]; ok {
+		return NewSafeError("duplicate subscription")
+	}
+
 	tags := map[string]string{"url": c.url, "query": mutate.Query, "queryVariables": mustMarshalJson(mutate.Variables), "id": id}
 
 	query, err := Parse(mutate.Query, mutate.Variables)
